@@ -156,6 +156,7 @@ class Ctx:
     # ------------------------------------------------------------------ output
     def finish(self) -> int:
         wall = time.time() - self.t0
+        write_evidence = not getattr(self, 'replay_mode', False)   # a --replay run must not replace the evidence of a check
         coverage = {
             'states': self.states,
             'transitions': self.transitions,
@@ -182,8 +183,9 @@ class Ctx:
                 {'id': i, 'count': h['count'], 'example': h['example']} for i, h in self.known_hits.items()
             ],
         }
-        EVIDENCE.mkdir(exist_ok=True, parents=True)
-        (EVIDENCE / f'{self.prop}.json').write_text(json.dumps(jsonable(ev), indent=1) + '\n')
+        if write_evidence:
+            EVIDENCE.mkdir(exist_ok=True, parents=True)
+            (EVIDENCE / f'{self.prop}.json').write_text(json.dumps(jsonable(ev), indent=1) + '\n')
         for i, h in self.known_hits.items():
             print(f"KNOWN-FINDING: property={self.prop} {h['entry']['what']} [{i}; seen {h['count']}x this run]")
         for v in self.violations:
